@@ -216,16 +216,18 @@ def beat_addr(cfg, op, k):
 
 
 def cycle_cap(cfg, stim):
+    """(total cap, silence bound).  A live bridge produces an event on one of the two interfaces (beat accepted, readdatavalid, native command or
+    data strobe, master gap counting down) at least every stall + latency + converter shifting cycles; `silence` is 4x that plus 250."""
     sl = stim.get("slave", {})
     down = max(1, cfg["avl_dw"] // cfg["port_dw"])
     up = max(1, cfg["port_dw"] // cfg["avl_dw"])
-    per_cmd = max((sl.get("wlat") or [3]) + (sl.get("rlat") or [5])) + sum(sl.get("ready") or [0]) + 12
+    per_cmd = max((sl.get("wlat") or [3]) + (sl.get("rlat") or [5])) + sum(sl.get("ready") or [0]) + sl.get("qmax", 8) + 12
     per_beat = down * per_cmd + 4 * up + 8
     cap = 400
     for op in stim["ops"]:
         n = len(op["data"]) if op["kind"] == "w" else op["n"]
         cap += op.get("gap", 0) + sum(op.get("gaps", [])) + 3 * n * per_beat + 60
-    return cap
+    return cap, 250 + 4 * per_cmd + 8 * up
 
 
 def run_bridge(cfg, stim, backend="fast", max_cycles=None, trace=None):
@@ -236,7 +238,9 @@ def run_bridge(cfg, stim, backend="fast", max_cycles=None, trace=None):
     fsm = dut.bridge.fsm
     enc = fsm.encoding
     S_START, S_BW, S_BR = enc["START"], enc["BURST_WRITE"], enc["BURST_READ"]
-    cap = max_cycles or cycle_cap(cfg, stim)
+    cap, silence = cycle_cap(cfg, stim)
+    cap = max_cycles or cap
+    last_sig, last_progress = None, 0
     qneed = 40 + 8 * max(1, cfg["port_dw"] // cfg["avl_dw"])
     t = 0
     quiet = 0
@@ -273,9 +277,15 @@ def run_bridge(cfg, stim, backend="fast", max_cycles=None, trace=None):
                 break
         else:
             quiet = 0
+            sig = (len(master.accepts), len(master.r_log), len(slave.log), master.gap)
+            if sig != last_sig:
+                last_sig, last_progress = sig, t
+            elif t - last_progress > silence:
+                break               # nothing has happened on either interface for `silence` cycles with work outstanding
     r = AvalonRun()
     r.cfg, r.stim, r.dut, r.master, r.slave, r.cycles, r.completed = cfg, stim, dut, master, slave, t, done
     r.early_exit = early_exit
+    r.silent = t - last_progress
     r.stall_in_burst = stall_in_burst
     r.final_state = sim.get(fsm.state)
     r.state_names = {v: k for k, v in enc.items()}
@@ -344,8 +354,8 @@ def oracle(run, P="C11"):
     if not run.completed:
         nacc = len(m.accepts)
         ntot = sum(len(op["data"]) if op["kind"] == "w" else 1 for op in ops)
-        fs.append(dict(clause=P + ".hang", key="hang", what="work outstanding after %d cycles: %d of %d commands/beats accepted (op %d beat %d %s), %d of %d read beats returned, bridge state %s, native slave idle=%s" % (
-            run.cycles, nacc, ntot, m.i, m.beat, "held under waitrequest" if m.presenting else "not presented", len(got), len(expected),
+        fs.append(dict(clause=P + ".hang", key="hang", what="work outstanding after %d cycles (no event on either interface during the last %d): %d of %d commands/beats accepted (op %d beat %d %s), %d of %d read beats returned, bridge state %s, native slave idle=%s" % (
+            run.cycles, run.silent, nacc, ntot, m.i, m.beat, "held under waitrequest" if m.presenting else "not presented", len(got), len(expected),
             run.state_names.get(run.final_state, run.final_state), s.idle())))
     else:
         for na in sorted(ref.touched | set(s.mem)):
@@ -384,7 +394,9 @@ def slave_sched(draw):
 
 
 @st.composite
-def avalon_ops(draw, cfg, max_ops=8, over_max=False):
+def avalon_ops(draw, cfg, max_ops=8, over_max=False, align=False):
+    """align (only meaningful when the port is wider than the Avalon bus): every burst starts on a native word and ends on the last chunk
+    of one (first address and burstcount * burst_increment are multiples of the width ratio)"""
     adw = cfg["avl_dw"]
     nb = adw // 8
     full = (1 << nb) - 1
@@ -392,6 +404,8 @@ def avalon_ops(draw, cfg, max_ops=8, over_max=False):
     maxb = cfg["max_burst"]
     off = word_offset(cfg)
     span = max(24, (maxb + 2) * inc)
+    ratio = max(1, cfg["port_dw"] // adw)
+    unit = ratio // inc if ratio % inc == 0 else ratio      # smallest burstcount with burstcount * inc a multiple of ratio
     nops = draw(st.integers(1, max_ops))
     ops = []
     for _ in range(nops):
@@ -403,7 +417,15 @@ def avalon_ops(draw, cfg, max_ops=8, over_max=False):
             if over_max and draw(st.integers(0, 3)) == 0:
                 hi = min(255, 2 * maxb + 3)
             n = draw(st.one_of(st.integers(2, min(hi, 6)), st.integers(2, hi)))
-        a = off + draw(st.integers(0, span - 1 - (n - 1) * inc)) if span - 1 - (n - 1) * inc >= 0 else off
+            if align:
+                n -= n % unit
+                if n < 2:
+                    n = unit if 2 <= unit <= hi else 1
+        room = span - 1 - (n - 1) * inc
+        a = draw(st.integers(0, room)) if room >= 0 else 0
+        if align and n > 1:
+            a -= a % ratio
+        a += off
         op = dict(kind=kind[0], addr=a, gap=draw(st.sampled_from([0, 0, 0, 1, 2, 5, 11])), wait=draw(st.integers(0, 3)) == 0)
         if kind[0] == "w":
             op["data"] = [draw(st.integers(0, (1 << adw) - 1)) for _ in range(n)]
